@@ -700,6 +700,184 @@ func TestC14Client(t *testing.T) {
 	})
 }
 
+type c14HeldCase struct {
+	Burst     int     `json:"updatesQueuedBehindTheHeldHandler"`
+	TimeoutMs int     `json:"reconnectTimeoutMs"`
+	HeldMs    int     `json:"handlerHeldAfterTheCutMs"`
+	Seen      []int64 `json:"newValuesSeen,omitempty"`
+}
+
+// TestC14HeldHandler: a handler callback that is still running when the connection is lost,
+// with further events queued behind it, for several times the client's reconnect timeout:
+// whatever the client does about its connection meanwhile, the handler is told the queued
+// updates once, in the order they were applied, and the updates made after the reconnection
+// follow them.
+func TestC14HeldHandler(t *testing.T) {
+	w := c16World(t)
+	rapid.Check(t, func(t *rapid.T) {
+		kase := c14HeldCase{Burst: rapid.IntRange(8, 60).Draw(t, "burst"), TimeoutMs: rapid.SampledFrom([]int{60, 100, 150}).Draw(t, "timeout")}
+		kase.HeldMs = kase.TimeoutMs * rapid.IntRange(3, 5).Draw(t, "heldfactor")
+		fail := func(class, format string, args ...interface{}) {
+			kit.Fail(t, "C14", class, kase, format, args...)
+		}
+		srv, err := kit.StartServer(w)
+		if err != nil {
+			t.Fatalf("server: %v", err)
+		}
+		defer srv.Close()
+		px, err := kit.StartProxy(srv.Sock)
+		if err != nil {
+			t.Fatalf("proxy: %v", err)
+		}
+		defer px.Close()
+		bg := context.Background()
+		direct, err := kit.DialRaw(srv.Sock)
+		if err != nil {
+			t.Fatalf("dial: %v", err)
+		}
+		defer direct.Close()
+		if _, err := direct.Transact("DB", []json.RawMessage{json.RawMessage(`{"op":"insert","table":"T0","row":{"marker":"ctr","n":0}}`)}); err != nil {
+			t.Fatalf("harness: %v", err)
+		}
+		c, err := kit.NewClient(w, px.Endpoint(), client.WithReconnect(time.Duration(kase.TimeoutMs)*time.Millisecond, backoff.NewConstantBackOff(3*time.Millisecond)))
+		if err != nil {
+			t.Fatalf("client: %v", err)
+		}
+		if err := c.Connect(bg); err != nil {
+			t.Fatalf("connect: %v", err)
+		}
+		defer c.Close()
+		if _, err := c.Monitor(bg, c.NewMonitor(client.WithTable(w.NewModel("T0")))); err != nil {
+			fail("monitor.error", "Monitor: %v", err)
+		}
+		var mu sync.Mutex
+		type upd struct{ old, new int64 }
+		var seen []upd
+		nOf := func(m model.Model) int64 {
+			_, r, err := w.RowFromModel("T0", m)
+			if err != nil || len(r["n"].K) != 1 {
+				return -1
+			}
+			return r["n"].K[0].I
+		}
+		gate := make(chan struct{})
+		released := false
+		release := func() {
+			if !released {
+				released = true
+				close(gate)
+			}
+		}
+		defer release()
+		first := true
+		c.Cache().AddEventHandler(&cache.EventHandlerFuncs{UpdateFunc: func(table string, o, n model.Model) {
+			mu.Lock()
+			hold := first
+			first = false
+			mu.Unlock()
+			if hold {
+				<-gate
+			}
+			mu.Lock()
+			seen = append(seen, upd{nOf(o), nOf(n)})
+			mu.Unlock()
+		}})
+		increment := func() {
+			if _, err := direct.Transact("DB", []json.RawMessage{json.RawMessage(`{"op":"mutate","table":"T0","where":[["marker","==","ctr"]],"mutations":[["n","+=",1]]}`)}); err != nil {
+				fail("harness.direct", "increment: %v", err)
+			}
+		}
+		counter := func() int64 {
+			rows, err := kit.CacheRows(w, c, "T0")
+			if err != nil {
+				return -1
+			}
+			for _, r := range rows {
+				if len(r["n"].K) == 1 && len(r["marker"].K) == 1 && r["marker"].K[0].S == "ctr" {
+					return r["n"].K[0].I
+				}
+			}
+			return -1
+		}
+		for i := 0; i < kase.Burst; i++ {
+			increment()
+		}
+		deadline := time.Now().Add(20 * time.Second)
+		for counter() != int64(kase.Burst) {
+			if time.Now().After(deadline) {
+				fail("cache.behind", "20 s after %d updates the cache holds n = %d", kase.Burst, counter())
+			}
+			time.Sleep(time.Millisecond)
+		}
+		// the connection is lost while the first callback is still running
+		px.CutAll()
+		time.Sleep(time.Duration(kase.HeldMs) * time.Millisecond)
+		release()
+		if !waitConnected(c, 30*time.Second) {
+			fail("reconnect.never", "30 s after the held handler returned the client is not connected")
+		}
+		const after = 5
+		// a row inserted now can only reach the cache over the new connection: once it is
+		// there the client is monitoring again
+		if _, err := direct.Transact("DB", []json.RawMessage{json.RawMessage(`{"op":"insert","table":"T0","row":{"marker":"sync"}}`)}); err != nil {
+			fail("harness.direct", "insert: %v", err)
+		}
+		deadline = time.Now().Add(30 * time.Second)
+		for {
+			rows, err := kit.CacheRows(w, c, "T0")
+			if err == nil && len(rows) == 2 && c.Connected() && counter() == int64(kase.Burst) {
+				break
+			}
+			if time.Now().After(deadline) {
+				fail("resync.cache-differs", "30 s after the held handler returned the cache holds n = %d (the database %d) and %d rows (the database 2)", counter(), kase.Burst, len(rows))
+			}
+			time.Sleep(time.Millisecond)
+		}
+		for i := 0; i < after; i++ {
+			increment()
+		}
+		deadline = time.Now().Add(30 * time.Second)
+		for {
+			mu.Lock()
+			n := len(seen)
+			mu.Unlock()
+			if n >= kase.Burst+after {
+				break
+			}
+			if time.Now().After(deadline) {
+				mu.Lock()
+				for _, e := range seen {
+					kase.Seen = append(kase.Seen, e.new)
+				}
+				mu.Unlock()
+				fail("events.missing", "%d of %d update events reached the handler within 30 s (connected %v, cache n = %d)", n, kase.Burst+after, c.Connected(), counter())
+			}
+			time.Sleep(time.Millisecond)
+		}
+		time.Sleep(5 * time.Millisecond)
+		mu.Lock()
+		evs := append([]upd{}, seen...)
+		mu.Unlock()
+		for _, e := range evs {
+			kase.Seen = append(kase.Seen, e.new)
+		}
+		if len(evs) != kase.Burst+after {
+			fail("events.count", "%d update events for %d updates", len(evs), kase.Burst+after)
+		}
+		for i, e := range evs {
+			if e.new != e.old+1 || (i > 0 && e.old != evs[i-1].new) || (i == 0 && e.old != 0) {
+				fail("events.order", "update event %d is %d -> %d (the one before ended in %d): the handler is not told the updates in the order they were applied", i, e.old, e.new, func() int64 {
+					if i == 0 {
+						return 0
+					}
+					return evs[i-1].new
+				}())
+			}
+		}
+		kit.Record("C14", fmt.Sprintf("held|%d|%d|%d", kase.Burst/10, kase.TimeoutMs, kase.HeldMs/kase.TimeoutMs), true, func() interface{} { return kase }, "handler-held-across-a-lost-connection")
+	})
+}
+
 type c14PartialCase struct {
 	Existing int    `json:"rowsBefore"`
 	Good     int    `json:"newRowsInTheNotification"`
